@@ -3,13 +3,20 @@ import math
 
 from harness import dtwgen
 
-COQ_FILES = ["theories/BandTie.v", "theories/Bounds.v", "gen/Gen_clb.v", "theories/CLb.v", "props/C09.v"]
+COQ_FILES = ["theories/BandTie.v", "theories/Bounds.v", "gen/Gen_clb.v", "theories/CLb.v", "gen/Gen_ced.v", "theories/CEd.v",
+             "props/C09.v"]
 THEOREMS = [("DVProps.C09", "C09_lb_keogh_le_dtw"), ("DVProps.C09", "C09_dtw_le_euclidean"),
-            ("DVProps.C09", "C09_c_envelope_is_python_envelope")]
+            ("DVProps.C09", "C09_c_envelope_is_python_envelope"),
+            ("DVProps.C09", "C09_c_euclidean_distance_squared_as_written"), ("DVProps.C09", "C09_c_euclidean_distance_euclidean_as_written"),
+            ("DVProps.C09", "C09_c_euclidean_distance_ndim_squared_as_written"),
+            ("DVProps.C09", "C09_c_euclidean_distance_ndim_euclidean_as_written")]
 TRUSTED_BASE = [
     "Coq 8.16.1 kernel (no native_compute)",
     "tools/translate_py.py: lb_keogh index arithmetic (imin_diff, imax_diff, imin, imax) regenerated into Gen_dtw.v and "
     "used verbatim by Bounds.lb_keogh_model",
+    "tools/cfun.py: the Euclidean routines of dd_ed.c (squared / absolute, 1-D / n-D) and the ub_euclidean* wrappers "
+    "regenerated WHOLE into Gen_ced.v and PROVED equal to ed_model with all accesses in range "
+    "(C09_c_euclidean_distance_*_as_written); the extracted definitions are run next to the compiled routines (kind craw_ed)",
     "extraction + driver.ml; harness/props/C09.py (ed.distance, ed_cc, dtw.lb_keogh, dtw_cc.lb_keogh tied by "
     "correspondence with ed_model / lb_keogh_model)",
 ]
@@ -20,6 +27,8 @@ RULE = ("random pairs (any signs, equal/unequal lengths) x window x inner_dist x
 GUARD = "lengths >= 1; window None or >= 1"
 
 KINDS = ["lb", "ed", "sandwich", "only_ub"]
+CED = ["euclidean_distance_squared", "euclidean_distance_euclidean", "euclidean_distance_ndim_squared",
+       "euclidean_distance_ndim_euclidean"]
 
 
 def gen_cases(rng, tier):
@@ -39,10 +48,43 @@ def gen_cases(rng, tier):
             case["settings"]["penalty"] = rng.choice([None, 0, 1, 2])
         case["container"] = rng.choice(["ndarray", "list", "array"]) if nd == 1 and eng == "py" else "ndarray"
         cases.append(case)
+    for k in range(n // 4):
+        # the compiled Euclidean routines called directly vs the definitions regenerated from dd_ed.c
+        v = rng.randint(0, 3)
+        nd = rng.choice([1, 2, 3]) if v >= 2 else 1
+        r, c = rng.randint(1, maxlen), rng.randint(1, maxlen)
+        if v == 3 and nd > 1:
+            from harness.props import C11
+            a, b = rng.choice(C11.PYTH)
+            direction = [0] * nd
+            i, j = rng.sample(range(nd), 2)
+            direction[i], direction[j] = a, b
+            single = ("line", [rng.randint(-2, 2) for _ in range(nd)], direction)
+            s1, s2 = C11.rand_nd(rng, r, nd, single), C11.rand_nd(rng, c, nd, single)
+        else:
+            s1 = [[rng.randint(-4, 4) for _ in range(nd)] for _ in range(r)]
+            s2 = [[rng.randint(-4, 4) for _ in range(nd)] for _ in range(c)]
+        cases.append({"site": "craw", "kind": "craw_ed", "variant": v, "ndim": nd, "r": r, "c": c, "s1": s1, "s2": s2,
+                      "container": "ndarray",
+                      "settings": {"window": None, "psi": None, "penalty": None, "max_step": None,
+                                   "inner_dist": "euclidean" if v in (1, 3) else "squared euclidean"}})
     return cases
 
 
 def expected(cases, oracle):
+    raw = [k for k, c in enumerate(cases) if c["kind"] == "craw_ed"]
+    flat = lambda s: " ".join(str(int(v)) for p in s for v in p)
+    rans = oracle.query(["ced %d %d %d %s %d %s" % (cases[k]["variant"], cases[k]["ndim"], len(cases[k]["s1"]), flat(cases[k]["s1"]),
+                                                   len(cases[k]["s2"]), flat(cases[k]["s2"])) for k in raw])
+    rexp = dict(zip(raw, rans))
+    allcases = cases
+    cases = [c for c in allcases if c["kind"] != "craw_ed"]
+    out0 = expected_main(cases, oracle)
+    it = iter(out0)
+    return [({"ced": rexp[k]} if c["kind"] == "craw_ed" else next(it)) for k, c in enumerate(allcases)]
+
+
+def expected_main(cases, oracle):
     lines = []
     for c in cases:
         s = c["settings"]
@@ -73,10 +115,19 @@ def impl_run(case):
     from harness import dtwimpl
     nd = case.get("ndim", 1)
     s = case["settings"]
-    s1 = dtwimpl.series(case["s1"], case["container"], nd)
-    s2 = dtwimpl.series(case["s2"], case["container"], nd)
+    if case["kind"] != "craw_ed":
+        s1 = dtwimpl.series(case["s1"], case["container"], nd)
+        s2 = dtwimpl.series(case["s2"], case["container"], nd)
     use_c = case["site"] == "c"
     kind = case["kind"]
+    if kind == "craw_ed":
+        from harness import craw
+        L = craw.lib()
+        a, b = craw.arr(case["s1"]), craw.arr(case["s2"])
+        f = getattr(L, CED[case["variant"]])
+        if case["variant"] >= 2:
+            return {"ced": f(a, len(case["s1"]), b, len(case["s2"]), nd)}
+        return {"ced": f(a, len(case["s1"]), b, len(case["s2"]))}
     idn = s["inner_dist"]
     out = {}
     if kind in ("lb", "sandwich"):
@@ -113,6 +164,13 @@ def judge(case, got, exp):
     if "exc" in got:
         return {"kind": "exception:" + got["exc"], "detail": got.get("msg")}
     g = got["ok"]
+    if case["kind"] == "craw_ed":
+        tag, val, okflag = exp["ced"].split()
+        if okflag != "ok":
+            return {"kind": "ced:model-reports-out-of-bounds-access", "model": exp["ced"]}
+        if float(g["ced"]) != float(val):
+            return {"kind": "ced:c-routine-differs-from-regenerated-definition", "c": g["ced"], "model": exp["ced"]}
+        return None
     if "lb" in g and float(g["lb"]) != exp["lb"]:
         return {"kind": "lb_keogh-differs-from-model", "got": g["lb"], "model": exp["lb"]}
     if "ed" in g and float(g["ed"]) != exp["ed"]:
@@ -128,6 +186,8 @@ def judge(case, got, exp):
 
 
 def nontrivial(case, exp):
+    if case["kind"] == "craw_ed":
+        return case["r"] != case["c"]
     return bool(exp.get("ed")) and (case["r"] != case["c"] or case["settings"]["window"] is not None or
                                     any(v < 0 for v in (case["s1"] if case["ndim"] == 1 else [])))
 
